@@ -36,7 +36,7 @@ from vmon.oracles import c07_oracle as O
 PROP = "C07"
 RULE = ("cases = (a) clustered particle tables (1-400 rows, 1-4 groups by tomo_id/object_id/class, metric score/geom1, "
         "both directions, non-zero shifts, d on the cluster scale; chains, overlapping groups, shift-decisive, near-tie, "
-        "extreme d, odd labels, repeated scores) and (b) plateau-free score maps (blobs/noise, cubic and non-cubic, "
+        "extreme d, odd labels, repeated scores, float32-collapsing metrics; subtomo_id unique / restarting per group / repeated) and (b) plateau-free score maps (blobs/noise, cubic and non-cubic, "
         "arrays and EM/MRC files, scores/sigma threshold incl. exactly 0 on mixed-sign maps, integer and generic diameters, numbering 0/1, "
         "zxz/zzx lists of 1-70000 rows); "
         "non-trivial = list with >= 1 conflicting pair inside a group, or map with >= 2 supra-threshold voxels of which "
@@ -508,6 +508,29 @@ def _build_cbd(rng, cls, big):
             df["score"] = df["score"].astype(np.float32)
         df.index = rng.permutation(n) * 3 + 11
         info["index"] = "shuffled_odd"
+    # row identity for the driver: an own unique tag.  subtomo_id presentation: unique / restarting in every group / repeats
+    df[TAG] = 1000.0 + np.arange(n)
+    idmode = str(rng.choice(["unique", "restart_per_group", "restart_per_group", "repeats_within_group", "all_equal"],
+                            p=[0.3, 0.25, 0.2, 0.2, 0.05]))
+    if metric == "subtomo_id":
+        idmode = "unique(metric)"
+    else:
+        labv = df[feature].to_numpy(dtype=float)
+        ids = np.zeros(n)
+        for g in np.unique(labv):
+            sel = np.nonzero(labv == g)[0]
+            k = len(sel)
+            seq = np.arange(1, k + 1, dtype=float)
+            if idmode == "repeats_within_group" and k > 1:
+                seq = rng.integers(1, max(2, k // 2) + 1, k).astype(float)
+            if rng.random() < 0.5:
+                seq = rng.permutation(seq)
+            ids[sel] = seq
+        if idmode == "all_equal":
+            ids[:] = 1.0
+        if idmode != "unique":
+            df["subtomo_id"] = ids.astype(df["subtomo_id"].dtype) if df["subtomo_id"].dtype.kind in "iu" else ids
+    info["subtomo_ids"] = idmode
     return {"df": df, "d": float(d), "feature": feature, "metric": metric, "kg": kg, "info": info}
 
 
@@ -777,8 +800,11 @@ def nontrivial(case):
 # =====================================================================================================
 # driver
 # =====================================================================================================
+TAG = "subtomo_mean"      # the driver's own unique row tag (never a grouping or metric field); subtomo_id may repeat
+
+
 def _survivor_ids(m):
-    return sorted(float(x) for x in m.df["subtomo_id"].to_numpy())
+    return sorted(float(x) for x in m.df[TAG].to_numpy())
 
 
 def _in_domain(df, c, d=None):
@@ -809,14 +835,14 @@ def _variant(rng, name, c, base_ids):
         return df, dict(kg=kg), base_ids
     if name == "negate_metric":
         df[metric] = -df[metric].to_numpy(dtype=float)
-        return df, dict(kg=not kg), (sorted(-x for x in base_ids) if metric == "subtomo_id" else base_ids)
+        return df, dict(kg=not kg), base_ids
     if name == "perturb_other_groups":
         lab = df[feature].to_numpy(dtype=float)
         vals = np.unique(lab)
         g = float(rng.choice(vals))
         own = lab == g
         other = np.nonzero(~own)[0]
-        keep_ids = sorted(set(base_ids) & set(float(x) for x in df["subtomo_id"].to_numpy()[own]))
+        keep_ids = sorted(set(base_ids) & set(float(x) for x in df[TAG].to_numpy()[own]))
         if len(other):
             P = gens.positions(df)
             Pg = P[own]
@@ -837,7 +863,7 @@ def _variant(rng, name, c, base_ids):
             # single group: add a foreign group on top of it
             extra = df.iloc[rng.integers(0, n, max(1, n // 2))].copy()
             extra[feature] = g + 1.0
-            extra["subtomo_id"] = extra["subtomo_id"].to_numpy(dtype=float) + 1e6
+            extra[TAG] = extra[TAG].to_numpy(dtype=float) + 1e6
             mv = extra[metric].to_numpy(dtype=float)
             span = np.abs(df[metric].to_numpy(dtype=float)).max() + 1
             extra[metric] = mv + span * 3 if kg else mv - span * 3
@@ -874,7 +900,7 @@ def _run_cbd(ctx, c):
             continue
         if "only_group" in kw:
             sel = mv.df[c["feature"]].to_numpy(dtype=float) == kw["only_group"]
-            got = sorted(float(x) for x in mv.df["subtomo_id"].to_numpy()[sel])
+            got = sorted(float(x) for x in mv.df[TAG].to_numpy()[sel])
         else:
             got = _survivor_ids(mv)
         good = got == exp
@@ -1059,7 +1085,8 @@ def extra(ctx):
                         df["shift_x"], df["shift_y"], df["shift_z"] = 0.25, -1.0, 2.0
                         df["score"] = np.array(perm, dtype=float) / 7.0
                         df["tomo_id"] = np.array(grp)
-                        df["subtomo_id"] = np.arange(1, npts + 1, dtype=float)
+                        # particle numbering restarts in every group (ids are not unique across the table)
+                        df["subtomo_id"] = np.array([sum(1 for q in range(r + 1) if grp[q] == grp[r]) for r in range(npts)], dtype=float)
                         m = cm.Motl(df)
                         ctx.call("clean_by_distance[exhaustive]", m.clean_by_distance, d, "tomo_id", metric_id="score", keep_greater=kg)
                         count += 1
